@@ -40,7 +40,7 @@ QUICK = ['0', '1', '-1', '2', '1.5', '2.5', '0.0', '""', '"a"', '"ab"', '"b"', '
          '[2, 1]', '{}', '{a: 1}', '{a: 1, b: 2}', '{b: 2, a: 1}', '/^ab/', 'r[1,2)', 'r(1,2]', 'r[0.5,2.5]',
          'r(1,1)', 'r[1,1)', 'r[1,1]', 'r(2.5,2.5)']
 # lhs-only document values that cannot be written as Guard literals
-EXTRA_DOCS = [(-2.5, 'float'), (-9223372036854775808, 'int')]
+EXTRA_DOCS = [(-2.5, 'float'), (-9223372036854775808, 'int'), (-0.0, 'float')]
 
 KOPS = ['Eq', 'Lt', 'Le', 'Gt', 'Ge', 'PartialEq']
 
